@@ -17,6 +17,7 @@ import (
 	"net/http/httptest"
 	"strings"
 	"sync"
+	"sync/atomic"
 	"time"
 
 	"github.com/bolkedebruin/rdpgw/cmd/rdpgw/protocol"
@@ -233,6 +234,11 @@ func dialLegacyIn(addr, connID, extraHeaders string) (net.Conn, *bufio.Reader, e
 		return nil, nil, err
 	}
 	req := "RDG_IN_DATA /remoteDesktopGateway/ HTTP/1.1\r\nHost: " + addr + "\r\nTransfer-Encoding: chunked\r\nRdg-Connection-Id: " + connID + "\r\n" + extraHeaders + "\r\n"
+	if len(legacyEagerFirst) > 0 {
+		// a client that starts streaming without waiting for the 200: the first chunk travels in the
+		// same write as the request head
+		req += fmt.Sprintf("%x\r\n%s\r\n", len(legacyEagerFirst), legacyEagerFirst)
+	}
 	in.Write([]byte(req))
 	br := bufio.NewReader(in)
 	in.SetReadDeadline(time.Now().Add(5 * time.Second))
@@ -251,6 +257,10 @@ func dialLegacyIn(addr, connID, extraHeaders string) (net.Conn, *bufio.Reader, e
 // legacyInHdr, when set, replaces the extra headers on the RDG_IN_DATA leg of dialLegacy (the two
 // legs of a legacy tunnel are separate requests and can come from different addresses).
 var legacyInHdr string
+
+// legacyEagerFirst, when set, is sent as the first chunk of the RDG_IN_DATA body in the same write as
+// the request head.
+var legacyEagerFirst []byte
 
 func dialLegacy(addr, connID, extraHeaders string) (*legacyClient, error) {
 	out, obr, err := dialLegacyOut(addr, connID, extraHeaders)
@@ -308,12 +318,23 @@ func (p *packetReader) snapshot() ([][]byte, bool) {
 	return out, p.eof
 }
 
+// pauseReaders makes the client-side readers stop reading while it is non-zero (a client that
+// stalls: the gateway's writes towards it back up).
+var pauseReaders int32
+
+func waitWhilePaused() {
+	for atomic.LoadInt32(&pauseReaders) != 0 {
+		time.Sleep(5 * time.Millisecond)
+	}
+}
+
 // readWS reads websocket messages (one packet per message) until the end.
 func readWS(w *wsClient, idle time.Duration) *packetReader {
 	pr := &packetReader{done: make(chan struct{})}
 	go func() {
 		defer close(pr.done)
 		for {
+			waitWhilePaused()
 			m, err := w.recv(idle)
 			if err != nil {
 				pr.mu.Lock()
@@ -336,6 +357,7 @@ func readLegacy(l *legacyClient, idle time.Duration) *packetReader {
 	go func() {
 		defer close(pr.done)
 		for {
+			waitWhilePaused()
 			l.out.SetReadDeadline(time.Now().Add(idle))
 			hdr := make([]byte, 8)
 			if _, err := io.ReadFull(l.outBr, hdr); err != nil {
